@@ -204,7 +204,7 @@ Section Multi.
   Lemma save_map_one sp m c u e k v :
     os_kind sp = KMap -> valid_ok sp [e] = true -> split_first 61 e = Some (k, v) ->
     save sp (mkState (VMap m) c u) [e] =
-      Ok (mkState (VMap (map_set (if lower then to_lower k else k) v m)) c u).
+      Ok (mkState (VMap (map_set (if lower then go_lower k else k) v m)) c u).
   Proof.
     intros K V Sp. unfold Option.save. rewrite V, K. simpl. rewrite Sp. reflexivity.
   Qed.
